@@ -254,7 +254,8 @@ def gen_project(rng, idx, ties):
     return files
 
 
-# minimised witnesses of the known findings (run first, through harvest and the CLI)
+# minimised witnesses of the known and of the FIXED findings (run first, through harvest and the CLI:
+# a regression of a47e117 / b3940ea shows up here as a violation whose signature is no longer suppressed)
 CORPUS = [
     {"target.py": "def g(x):\n    return x.y\n\ndef f(a, b, c, d):\n    g(a)\n    g(b)\n    g(c)\n    g(d)\n"},
     {"lib.py": "def a(x):\n    return x.p\n\ndef b(x):\n    return x.q\n\ndef c(x):\n    return x.r\n",
@@ -315,7 +316,8 @@ def trim_outputirs(o, keep=4):
 # ------------------------------------------------------------------ synthesiser
 
 WORDS = ["a", "b", "a.b", "a.b.c", "A", "Z", "_x", "a_", "a0", "a[]", "*a", "*a.b", "@Str", "@BinOp.x", "b.c()",
-         "a.b[].c", "é", "λ.x", "aa", "ab", "B", "self", "self.v", "x.y", "g", "g()", "print", "a b", 'q"uote', "back\\slash"]
+         "a.b[].c", "é", "λ.x", "aa", "ab", "B", "self", "self.v", "x.y", "g", "g()", "print", "a b", 'q"uote', "back\\slash",
+         "a!b", "tab\there", "ctl\x08\x0c\x7f", "nl\n", "astral😀x"]
 PATHS = ["target.py", "lib/mod.py", "/abs/dir/file.py", "built-in", "pkg/__init__.py"]
 
 
@@ -821,6 +823,18 @@ def run(tier, seed, build):
                                               "impl": doc_s[:400], "object": payload["obj"] if len(doc_s) < 6000 else "<large>"})
                 else:
                     res.count("corr:ser:agree")
+                    # the sort-key hypothesis of C18_ir_canonical (json's printer separates the members of
+                    # every set), evaluated by the model on this very object
+                    if not mo.get("sort_key_injective", True):
+                        res.internal_errors.append({"what": "sort key (name, json.dumps) does not separate two "
+                                                    "different members of a set: hypothesis SortKeyInj fails",
+                                                    "case": case})
+                    else:
+                        res.count("hyp:SortKeyInj:holds")
+                    # the model's json.dumps(sort_keys=True) against the real one (the IR sort key)
+                    if mo["sorted_dump"] != json.dumps(json.loads(doc_s), sort_keys=True):
+                        res.internal_errors.append({"what": "dumpSorted differs from json.dumps(sort_keys=True)",
+                                                    "case": case, "model": mo["sorted_dump"][:300]})
                     # the model's compact printer against json.dumps (ASCII escapes, separators)
                     if mo["compact"] != json.dumps(json.loads(doc_s), separators=(",", ":")):
                         res.internal_errors.append({"what": "JVal.render differs from json.dumps(separators=(',',':'))",
@@ -906,6 +920,7 @@ def run(tier, seed, build):
         "[interp] 'compare equal' is Python == on the rattr objects (attrs eq: token and location excluded; sets and dicts order-insensitive)",
         "[interp] the order of the import_irs dict (filled by the import BFS) and of the context symbol table (insertion order) is part of the analysis; their hash-seed independence is covered end-to-end by the CLI runs only",
         "model `structure` is claimed only for documents the serialiser emits (every key present, declared scalar types)",
+        "json.dumps(·, sort_keys=True) is injective on the unstructured members of a set (hypothesis SortKeyInj of C18_ir_canonical): evaluated by the model on every object (distribution key hyp:SortKeyInj:holds), a failure is an internal error",
         "Python set iteration order is an arbitrary permutation (modelled by list order); permuted-order checks feed lists in place of sets",
     ]
     return res
